@@ -17,11 +17,11 @@ let split_on c s = String.split_on_char c s
 
 let site_name (s : site) : string = match s with
   | ZkNoServers -> "ZkNoServers" | ZkBadServers -> "ZkBadServers" | ZkBadRoot -> "ZkBadRoot"
-  | StorageCount -> "StorageCount" | StorageClass -> "StorageClass" | StorageWorkers -> "StorageWorkers" | StorageQueueDepth -> "StorageQueueDepth"
+  | StorageCount -> "StorageCount" | StorageClass -> "StorageClass" | StorageWorkers -> "StorageWorkers" | StorageIntervals -> "StorageIntervals" | StorageQueueDepth -> "StorageQueueDepth"
   | StorageLegacy -> "StorageLegacy" | StorageAllow -> "StorageAllow" | StorageDeny -> "StorageDeny"
   | EvaluatorCount -> "EvaluatorCount" | EvaluatorClass -> "EvaluatorClass" | EvaluatorCache -> "EvaluatorCache"
   | HttpAddress -> "HttpAddress" | HttpCaFile -> "HttpCaFile" | HttpNoCert -> "HttpNoCert" | HttpKeyPair -> "HttpKeyPair"
-  | NotifierLegacy -> "NotifierLegacy" | NotifierAllow -> "NotifierAllow" | NotifierDeny -> "NotifierDeny"
+  | NotifierInterval -> "NotifierInterval" | NotifierLegacy -> "NotifierLegacy" | NotifierAllow -> "NotifierAllow" | NotifierDeny -> "NotifierDeny"
   | NotifierTemplateOpen -> "NotifierTemplateOpen" | NotifierTemplateClose -> "NotifierTemplateClose"
   | NotifierClass -> "NotifierClass" | NotifierUrlOpen -> "NotifierUrlOpen" | NotifierUrlClose -> "NotifierUrlClose"
   | NotifierExtraCa -> "NotifierExtraCa" | EmailServer -> "EmailServer" | EmailFrom -> "EmailFrom" | EmailTo -> "EmailTo"
@@ -95,7 +95,7 @@ let build (toks : string list) : config =
     cfg_zk_root = opt "zookeeper.root-path";
     cfg_zk_tls = opt "zookeeper.tls";
     cfg_storage = List.map (fun n -> let r = "storage." ^ n in
-      { st_name = nm n; st_class = cls_of (get_s (r ^ ".class-name")); st_workers = zi (get_i (r ^ ".workers") 20);
+      { st_name = nm n; st_class = cls_of (get_s (r ^ ".class-name")); st_workers = zi (get_i (r ^ ".workers") 20); st_intervals = zi (get_i (r ^ ".intervals") 10);
         st_queue_depth = zi (get_i (r ^ ".queue-depth") 1);
         st_legacy = legacy r; st_allow = atom (get_s (r ^ ".group-allowlist")); st_deny = atom (get_s (r ^ ".group-denylist")) })
       (modules "storage");
@@ -105,7 +105,7 @@ let build (toks : string list) : config =
     cfg_http = List.map (fun n -> let r = "httpserver." ^ n in
       { hs_name = nm n; hs_addr = atom (get_s (r ^ ".address")); hs_tls = opt (r ^ ".tls") }) (modules "httpserver");
     cfg_notifier = List.map (fun n -> let r = "notifier." ^ n in
-      { nt_name = nm n; nt_class = cls_of (get_s (r ^ ".class-name")); nt_legacy = legacy r;
+      { nt_name = nm n; nt_class = cls_of (get_s (r ^ ".class-name")); nt_interval = zi (get_i (r ^ ".interval") 60); nt_legacy = legacy r;
         nt_allow = atom (get_s (r ^ ".group-allowlist")); nt_deny = atom (get_s (r ^ ".group-denylist"));
         nt_template_open = atom (get_s (r ^ ".template-open")); nt_send_close = get_b (r ^ ".send-close");
         nt_template_close = atom (get_s (r ^ ".template-close"));
